@@ -12,6 +12,7 @@ type hgenOpts struct {
 	Orphans     bool // sessions without login, logins without session, noise
 	Cleanup     string // "" none | "far" far past/far future | "between" cut-offs between arrivals
 	Strays      bool // events after disp, events before open
+	HeldAfterDisp bool // events after disp while the session has no login yet (they are held and released with the rest)
 }
 
 // genHistory draws a history without PID or session-id reuse: session i is
@@ -55,13 +56,14 @@ func genHistory(rt *rapid.T, o hgenOpts) history {
 			if !opened[s] && !(o.Strays && rapid.IntRange(0, 4).Draw(rt, "early") == 0) {
 				continue
 			}
-			if disped[s] && !(o.Strays && rapid.IntRange(0, 3).Draw(rt, "late") == 0) {
+			if disped[s] && !(o.Strays && rapid.IntRange(0, 3).Draw(rt, "late") == 0) &&
+				!(o.HeldAfterDisp && !logged[s] && rapid.IntRange(0, 1).Draw(rt, "heldlate") == 0) {
 				continue
 			}
 			ops = append(ops, hop{K: "ev", S: s, T: pick(rt, "t", evTypeNames), P: evPid(rt, s, nS)})
 			if rapid.IntRange(0, 19).Draw(rt, "burst") == 0 {
 				// a burst: a busy session logs many records in a row
-				for b := rapid.IntRange(4, 12).Draw(rt, "burstn"); b > 0 && len(ops) < n+12; b-- {
+				for b := rapid.IntRange(4, 24).Draw(rt, "burstn"); b > 0 && len(ops) < n+24; b-- {
 					ops = append(ops, hop{K: "ev", S: s, T: pick(rt, "tb", evTypeNames), P: s})
 				}
 			}
@@ -180,8 +182,37 @@ func genReuseHistory(rt *rapid.T) history {
 		for k := rapid.IntRange(0, 2).Draw(rt, "nstray"); k > 0; k-- {
 			strays = append(strays, hop{K: "ev", S: s1, T: pick(rt, "ts", evTypeNames), P: p})
 		}
-		phase2 := interleave(rt, "il2", rec2, []hop{{K: "login", P: p}}, strays)
-		chains = append(chains, append(phase1, phase2...))
+		login2 := hop{K: "login", P: p}
+		if rapid.IntRange(0, 2).Draw(rt, "sameacct") == 0 {
+			// the same account reconnects from the same host (only the source port differs)
+			login2.T = "same_account"
+			for i := range phase1 {
+				if phase1[i].K == "login" {
+					phase1[i].T = "same_account"
+				}
+			}
+		}
+		phase2 := interleave(rt, "il2", rec2, []hop{login2}, strays)
+		chain := append(phase1, phase2...)
+		if pos < len(rec1) && rapid.IntRange(0, 3).Draw(rt, "skew") == 0 {
+			// cross-stream skew: the second login line overtakes the first session's
+			// disposal record (the first session is bound and still open at that moment)
+			di, li := -1, -1
+			for i, o := range chain {
+				if o.K == "disp" && o.S == s1 {
+					di = i
+				}
+				if o.K == "login" && i > di && di >= 0 && li < 0 {
+					li = i
+				}
+			}
+			if di >= 0 && li > di {
+				l := chain[li]
+				copy(chain[di+1:li+1], chain[di:li])
+				chain[di] = l
+			}
+		}
+		chains = append(chains, chain)
 	}
 	// bystanders: sessions 11.. with their own pids 11..
 	nB := rapid.IntRange(0, 2).Draw(rt, "nB")
